@@ -11,7 +11,8 @@ namespace NV.C05
 
 /-- the context `save_context` stores in state `s` -/
 def ctxOf (s : M) : Ctx :=
-  { saveSp := s.vs.length, saveCsp := s.cs.length, saveCg := s.cg, saveLd := s.loadDepth, saveRd := s.restrictDestruct }
+  { saveSp := s.vs.length, saveCsp := s.cs.length, saveCg := s.cg, saveLd := s.loadDepth, saveRd := s.restrictDestruct,
+    saveVerb := s.lastVerb }
 
 /-- both stacks and the chain are unchanged -/
 structure Same (m m' : M) : Prop where
@@ -146,13 +147,20 @@ theorem longjmp_good {m m' : M} (h : Ext m m') : Good m (longjmp m') := by
   · rename_i heq; exact h.ctxs.symm.trans heq
   · exact h
 
+theorem hbOffStep_same (m : M) :
+    (hbOffStep m).vs = m.vs ∧ (hbOffStep m).cs = m.cs ∧ (hbOffStep m).ctxs = m.ctxs ∧
+    (hbOffStep m).loadDepth = m.loadDepth ∧ (hbOffStep m).restrictDestruct = m.restrictDestruct := by
+  unfold hbOffStep
+  split <;> exact ⟨rfl, rfl, rfl, rfl, rfl⟩
+
 theorem raiseInner_goodE (msg : String) {m m0 : M} (h : Ext m m0) : GoodE m (raiseInner msg m0) := by
   simp only [raiseInner]
   split
   · exact longjmp_goodE ⟨h.vs, h.cs, h.ctxs⟩
   · split
     · exact longjmp_goodE ⟨h.vs, h.cs, h.ctxs⟩
-    · exact longjmp_goodE ⟨h.vs, h.cs, h.ctxs⟩
+    · obtain ⟨a, b, c, _, _⟩ := hbOffStep_same { resetGuards m0 with inError := false, inMudlibHandler := false }
+      exact longjmp_goodE ⟨by rw [a]; exact h.vs, by rw [b]; exact h.cs, by rw [c]; exact h.ctxs⟩
 
 theorem raiseInner_not_ok (msg : String) (m m' : M) : raiseInner msg m ≠ .ok m' := by
   simp only [raiseInner, longjmp]
@@ -222,7 +230,8 @@ theorem raiseInner_rspec (msg : String) {m m0 : M} (h : Ext m m0) : RSpec m (rai
   · exact longjmp_rspec ⟨h.vs, h.cs, h.ctxs⟩ rfl rfl
   · split
     · exact longjmp_rspec ⟨h.vs, h.cs, h.ctxs⟩ rfl rfl
-    · exact longjmp_rspec ⟨h.vs, h.cs, h.ctxs⟩ rfl rfl
+    · obtain ⟨a, b, c, d, e⟩ := hbOffStep_same { resetGuards m0 with inError := false, inMudlibHandler := false }
+      exact longjmp_rspec ⟨by rw [a]; exact h.vs, by rw [b]; exact h.cs, by rw [c]; exact h.ctxs⟩ (by rw [d]; rfl) (by rw [e]; rfl)
 
 theorem RSpec.good {m : M} {r : Res} (h : RSpec m r) : Good m r := by
   cases r with
@@ -310,9 +319,10 @@ theorem raise_rspec (msg : String) {m m0 : M} (h : Ext m m0) : RSpec m (raise ms
   · split
     · exact longjmp_rspec (hext _ rfl rfl rfl) rfl rfl
     · split
-      · exact longjmp_rspec (hext _ rfl rfl rfl) rfl rfl
-      · exact viaHandler false _ (fun y => { y with inError := false, inMudlibHandler := false }) rfl rfl rfl rfl rfl
-          (fun y => ⟨rfl, rfl, rfl, rfl, rfl⟩)
+      · obtain ⟨a, b, c, d, e⟩ := hbOffStep_same { resetGuards m0 with inError := false, inMudlibHandler := false }
+        exact longjmp_rspec (hext _ a b c) (by rw [d]; rfl) (by rw [e]; rfl)
+      · exact viaHandler false _ (fun y => hbOffStep { y with inError := false, inMudlibHandler := false }) rfl rfl rfl rfl rfl
+          (fun y => hbOffStep_same _)
 
 theorem raise_good (msg : String) {m m0 : M} (h : Ext m m0) : Good m (raise msg m0) := (raise_rspec msg h).good
 
@@ -373,6 +383,18 @@ theorem dhookFinish_good {v : Val} {m m2 : M} {r : Res} (hs : Same m m2) (hr : G
   | ok m1 => exact hs.trans ⟨hr.vs, hr.cs, hr.ctxs⟩
   | err m1 => exact hs.toExt.trans hr
   | crash w m1 => exact hs.ctxs.symm.trans hr
+
+theorem verbFinish_good {m m2 : M} {r : Res} (hs : Same m m2) (hr : Good m2 r) : Good m (verbFinish r) := by
+  cases r with
+  | ok m1 => exact hs.trans ⟨hr.vs, hr.cs, hr.ctxs⟩
+  | err m1 => exact hs.toExt.trans hr
+  | crash w m1 => exact hs.ctxs.symm.trans hr
+
+theorem hbFinish_good {m : M} {r : Res} (hr : Good m r) : Good m (hbFinish r) := by
+  cases r with
+  | ok m1 => exact ⟨hr.vs, hr.cs, hr.ctxs⟩
+  | err m1 => exact hr
+  | crash w m1 => exact hr
 
 theorem enterCall_spec (k : CallKind) (d : Nat) (m : M) :
     (enterCall k d m).vs = m.vs ∧ (enterCall k d m).ctxs = m.ctxs ∧
@@ -465,7 +487,7 @@ theorem catchFinish_good {m m2 : M} {r : Res} {f : Frame} (hv : m2.vs = m.vs) (h
     obtain ⟨dv, hdv⟩ := hr.vs
     obtain ⟨dc, hdc⟩ := hr.cs
     obtain ⟨m6, h1, h2, h3, _, _⟩ := restoreContext_ext m5 dv m.vs (dc ++ [f]) m.cs m.cg (by rw [hdv, hv])
-      (by rw [hdc, hc]; simp) m.loadDepth m.restrictDestruct
+      (by rw [hdc, hc]; simp) m.loadDepth m.restrictDestruct m.lastVerb
     have h1 : restoreContext (ctxOf m) m5 = .ok m6 := h1
     simp only [catchFinish, h1]
     have hE : ∀ (x : M), x.vs = List.replicate 1 Slot.val ++ m6.vs → x.cs = m6.cs → x.ctxs = m.ctxs → Ext m x :=
@@ -498,7 +520,7 @@ theorem safeFinish_good {declared : Nat} {m m3 : M} {r : Res} {f : Frame} {e0 : 
     obtain ⟨dv, hdv⟩ := hr.vs
     obtain ⟨dc, hdc⟩ := hr.cs
     obtain ⟨m7, h1, h2, h3, _, _⟩ := restoreContext_ext m6 (dv ++ List.replicate declared Slot.val) m.vs (dc ++ [f]) m.cs m.cg
-      (by rw [hdv, hv]; simp) (by rw [hdc, hc]; simp) m.loadDepth m.restrictDestruct
+      (by rw [hdv, hv]; simp) (by rw [hdc, hc]; simp) m.loadDepth m.restrictDestruct m.lastVerb
     have h1 : restoreContext (ctxOf m) m6 = .ok m7 := h1
     simp only [safeFinish, h1]
     exact ⟨h2, h3, rfl⟩
@@ -522,7 +544,7 @@ theorem safeFinish_total {declared : Nat} {m m3 : M} {r : Res} {f : Frame} {e0 :
     obtain ⟨dv, hdv⟩ := hr.vs
     obtain ⟨dc, hdc⟩ := hr.cs
     obtain ⟨m7, h1, h2, h3, _, _⟩ := restoreContext_ext m6 (dv ++ List.replicate declared Slot.val) m.vs (dc ++ [f]) m.cs m.cg
-      (by rw [hdv, hv]; simp) (by rw [hdc, hc]; simp) m.loadDepth m.restrictDestruct
+      (by rw [hdv, hv]; simp) (by rw [hdc, hc]; simp) m.loadDepth m.restrictDestruct m.lastVerb
     have h1 : restoreContext (ctxOf m) m6 = .ok m7 := h1
     exact ⟨popContext m.ctxs m7, by simp only [safeFinish, h1], ⟨h2, h3, rfl⟩⟩
   | crash w m1 =>
@@ -543,7 +565,7 @@ theorem safeFpFinish_total {declared : Nat} {m m3 : M} {r : Res} {owner : Val} {
     obtain ⟨dv, hdv⟩ := hr.vs
     obtain ⟨dc, hdc⟩ := hr.cs
     obtain ⟨m7, h1, h2, h3, _, _⟩ := restoreContext_ext m6 (dv ++ List.replicate declared Slot.val) m.vs (dc ++ [f, g]) m.cs m.cg
-      (by rw [hdv, hv]; simp) (by rw [hdc, hc]; simp) m.loadDepth m.restrictDestruct
+      (by rw [hdv, hv]; simp) (by rw [hdc, hc]; simp) m.loadDepth m.restrictDestruct m.lastVerb
     have h1 : restoreContext (ctxOf m) m6 = .ok m7 := h1
     exact ⟨popContext m.ctxs m7, by simp only [safeFpFinish, h1], ⟨h2, h3, rfl⟩⟩
   | crash w m1 =>
@@ -554,7 +576,7 @@ theorem safeFpFinish_total {declared : Nat} {m m3 : M} {r : Res} {owner : Val} {
 theorem safeFpFinish_err {owner : Val} {declared : Nat} {m m6 : M} {dv : List Slot} {dc : List Frame}
     (hv : m6.vs = dv ++ m.vs) (hc : m6.cs = dc ++ m.cs) :
     ∃ m', safeFpFinish owner (ctxOf m) m.ctxs declared (.err m6) = .ok m' ∧ Same m m' := by
-  obtain ⟨m7, h1, h2, h3, _, _⟩ := restoreContext_ext m6 dv m.vs dc m.cs m.cg hv hc m.loadDepth m.restrictDestruct
+  obtain ⟨m7, h1, h2, h3, _, _⟩ := restoreContext_ext m6 dv m.vs dc m.cs m.cg hv hc m.loadDepth m.restrictDestruct m.lastVerb
   have h1 : restoreContext (ctxOf m) m6 = .ok m7 := h1
   exact ⟨popContext m.ctxs m7, by simp only [safeFpFinish, h1], ⟨h2, h3, rfl⟩⟩
 
@@ -718,6 +740,20 @@ theorem execCore_good : ∀ (o : Op) (m : M), Good m (execCore o m)
   | .dhook v body, m => by
     simp only [execCore]
     exact dhookFinish_good (m2 := { m with restrictDestruct := v }) ⟨rfl, rfl, rfl⟩ (exec_good body _)
+  | .verb v body, m => by
+    simp only [execCore]
+    exact verbFinish_good (m2 := { m with lastVerb := v }) ⟨rfl, rfl, rfl⟩ (exec_good body _)
+  | .heartBeat ob cgv body, m => by
+    simp only [execCore]
+    split
+    · rename_i mFull hd
+      have e1 : Ext m ({ m with hbCur := ob, cg := cgv } : M) := Ext.mk' [] [] rfl rfl rfl
+      exact raise_good _ ((e1.trans (depthCheck_spec hd)).trans ⟨⟨[], rfl⟩, ⟨[], rfl⟩, rfl⟩)
+    · have hb := exec_good body (enterCall (.other ob) 0 { m with hbCur := ob, cg := cgv })
+      have hcf : Good m (callFinish (.other ob) 0 (thenTick (exec body (enterCall (.other ob) 0 { m with hbCur := ob, cg := cgv })))) :=
+        callFinish_good (k := .other ob) (declared := 0) (m := m) (m2 := enterCall (.other ob) 0 { m with hbCur := ob, cg := cgv })
+          (fs := [⟨.function, m.r⟩]) rfl rfl rfl rfl (thenTick_good hb)
+      exact hbFinish_good hcf
 end
 
 end NV.C05
